@@ -527,6 +527,12 @@ func spawnWorker(self, id, tier string, k, n int, out, trace string, only int64,
 		return nil, se.String(), false
 	}
 	// exit 3 = watchdog reported a timeout itself; result file is valid.
+	// Any other failure exit: the file holds the partial result flushed at
+	// the last violation; the worker still counts as dead.
+	if ee, ok := err.(*exec.ExitError); ok && ee.ExitCode() != 3 {
+		res.Cut = true
+		return &res, se.String() + fmt.Sprintf("\nexit: %v", err), false
+	}
 	return &res, se.String(), true
 }
 
@@ -550,6 +556,9 @@ func attributeDeath(self string, p *Prop, id, tier string, k, n int, work, stder
 	out := filepath.Join(work, fmt.Sprintf("shard%d.trace.json", k))
 	_, se2, ok := spawnWorker(self, id, tier, k, n, out, trace, 0, hard)
 	if ok {
+		if v := crashViolation(stderr, "not reproduced when the shard was re-run"); v != nil {
+			return v, ""
+		}
 		return nil, fmt.Sprintf("worker %d died once but not when re-run (flaky): %s", k, tail(stderr, 800))
 	}
 	b, err := os.ReadFile(trace)
@@ -572,11 +581,28 @@ func attributeDeath(self string, p *Prop, id, tier string, k, n int, work, stder
 		}
 	}
 	if deaths < 3 {
+		if v := crashViolation(se2, fmt.Sprintf("case seq=%d alone died %d/3 times", t.Seq, deaths)); v != nil {
+			v.Payload = t.Payload
+			return v, ""
+		}
 		return nil, fmt.Sprintf("worker %d died at case seq=%d but the case alone died only %d/3 times: %s", k, t.Seq, deaths, tail(se2, 800))
 	}
 	first := firstFatalLine(last)
 	return &Violation{Key: "crash: " + first, Payload: t.Payload,
 		Detail: "worker process died (not a recoverable panic); confirmed 3/3 alone\n" + head(last, 3000)}, ""
+}
+
+// crashViolation turns the last words of a dead worker into a violation when
+// they show a Go panic or fatal error raised by the code under test (a
+// schedule-dependent crash is a defect even if it does not reproduce on
+// demand); nil if the death looks environmental (kill, out of memory).
+func crashViolation(stderr, note string) *Violation {
+	first := firstFatalLine(stderr)
+	if !(strings.HasPrefix(first, "panic:") || strings.HasPrefix(first, "fatal error:")) || strings.Contains(first, "out of memory") {
+		return nil
+	}
+	return &Violation{Key: "crash (" + note + "): " + first, Payload: json.RawMessage(`null`),
+		Detail: "worker process died with a Go panic / fatal error; " + note + "\n" + head(stderr, 3000)}
 }
 
 func firstFatalLine(s string) string {
